@@ -1824,3 +1824,23 @@ where
     output.write_all(b">")?;
     Ok(())
 }
+
+/// Verification hooks (only with `--cfg comrak_verif`): thin pass-throughs to private helpers.
+#[cfg(comrak_verif)]
+#[doc(hidden)]
+pub mod verif_hooks {
+    /// `tagfilter`
+    pub fn tagfilter(literal: &[u8]) -> bool {
+        super::tagfilter(literal)
+    }
+    /// `tagfilter_block`
+    pub fn tagfilter_block(input: &[u8]) -> Vec<u8> {
+        let mut o = Vec::new();
+        super::tagfilter_block(input, &mut o).unwrap();
+        o
+    }
+    /// `dangerous_url`
+    pub fn dangerous_url(input: &[u8]) -> bool {
+        super::dangerous_url(input)
+    }
+}
